@@ -129,8 +129,29 @@ def explore_unit(args):
             st.timed_out += 1
             st.inconclusive.append('path timeout: ' + str(c.notes.get('class')))
         else:
-            st.errors += 1
-            st.error_msgs.append(str(c.notes.get('error')) + ' @ ' + str(c.notes.get('class')) + ' choices=' + str(c.notes.get('choices')))
+            # degraded path: something on it is not modelled.  Sample it: one model of the path condition, native run.
+            handled = False
+            try:
+                core.set_ctx(c)
+                try:
+                    m = c.ensure_model()
+                    model = core._model_dict(c, m)
+                finally:
+                    core.set_ctx(None)
+                nat = run_native(harness, cfg, model, c.notes.get('choices', []))
+                st.counters['degraded_paths_sampled_natively'] = st.counters.get('degraded_paths_sampled_natively', 0) + 1
+                st.inconclusive.append('degraded path (sampled natively, not decided): ' + str(c.notes.get('error'))[:120])
+                for v in nat:
+                    st.violations.append({'label': v['label'], 'detail': v.get('detail'), 'model': model,
+                                          'choices': list(c.notes.get('choices', [])),
+                                          'notes': {'desc': c.notes.get('desc'), 'degraded': True}, 'prefix': c.trace})
+                handled = True
+            except BaseException as ex:
+                handled = False
+                c.notes['error'] = str(c.notes.get('error')) + f' | native fallback failed: {type(ex).__name__}: {ex}'
+            if not handled:
+                st.errors += 1
+                st.error_msgs.append(str(c.notes.get('error')) + ' @ ' + str(c.notes.get('class')) + ' choices=' + str(c.notes.get('choices')))
         stack.extend(c.alts)
     return st, stack
 
